@@ -37,7 +37,7 @@ CLAUSES = [
      "piece does not end in a rest and its end lies beyond the bar of the last onset), every detokenised sequence lasts exactly `lastBarEnd`: the piece length rounded up on "
      "the grid built from the signature changes alone; without the tail exclusion refuted (known finding D15)",
      ["SCoda.C01c.duration_no_tail", "SCoda.C01c.duration_piece", "SCoda.C01c.duration_statement_false"]),
-    ("TIE BY TRANSLATION, tokeniser: MultiTrackLargeVocabularyNotelikeTokeniser is re-translated statement by statement on every run (Gen/TokFns.lean, tools/py2lean_tok.py: __init__, _construct_dictionary, tokenise with its closure _apply_rest as a fuelled loop, detokenise, get_info, encode, decode; f-strings as string concatenation, dicts as association lists, floats as exact rationals) and each translation is proved equal to the hand model the theorems above are about, on rendered token strings: tokenise = tokeniseCore on extract (track count = num_tracks, state denominator ≠ 0, 0 ≤ ppqn·4·n — the excluded points raise in the source, proved: tokenise_wrong_length, tokenise_zero_denominator; the unrestricted statement is refuted), detokenise = model detokenise (0 ≤ ppqn, natural-number token fields), encode / decode = the model's id maps",
+    ("TIE BY TRANSLATION, tokeniser: MultiTrackLargeVocabularyNotelikeTokeniser is re-translated statement by statement on every run (Gen/TokFns.lean, tools/py2lean_tok.py: __init__, _construct_dictionary, tokenise with its closure _apply_rest as a fuelled loop, detokenise, get_info, encode, decode; f-strings as string concatenation, dicts as association lists, floats as exact rationals) and each translation is proved equal to the hand model the theorems above are about, on rendered token strings: tokenise (called with insert_bar_token = True and flag_running_time_signature = True, the defaults; stated for extract at the library's PPQN — the property theorems are about extract at the tokeniser's own ppqn, for ppqn ≠ 24 tie and property theorems do not compose formally and the sampled correspondence is what links them) = tokeniseCore on extract (track count = num_tracks, state denominator ≠ 0, 0 ≤ ppqn·4·n — the excluded points raise in the source, proved: tokenise_wrong_length, tokenise_zero_denominator; the unrestricted statement is refuted), detokenise = model detokenise (0 ≤ ppqn, natural-number token fields), encode / decode = the model's id maps",
      ["SCoda.TokTie.tokenise_eq", "SCoda.TokTie.tokenise_eq'", "SCoda.TokTie.tokenise_fresh", "SCoda.TokTie.tokenise_fresh'", "SCoda.TokTie.tokenise_none", "SCoda.TokTie.stOfDict_nil", "SCoda.TokTie.tokenise_wrong_length", "SCoda.TokTie.tokenise_zero_denominator", "SCoda.TokTie.tokenise_eq_statement_false", "SCoda.TokTie.detokenise_eq", "SCoda.TokTie.detokenise_step", "SCoda.TokTie.encode_eq", "SCoda.TokTie.decode_eq", "SCoda.TokTie.tokInit_eq'"]),
     ("duration on the exact complement of D15's failing class (audit round 2 A4a): no detokenised sequence ever lasts longer than the end of the last bar; outside HasTail' (= HasTail and the latest note end is not the end of the last bar) the longest sequence lasts exactly that long (one-track piece: the sequence), and sequence i does whenever a note of track i ends there; 'every sequence' and 'end of the piece on a bar end' are refuted (two tracks [0,96)/[0,24): library durations 96/24; note [0,48)+rest+key signature at 96: library duration 48)",
      ["SCoda.C01n.duration_no_tail'", "SCoda.C01n.duration_no_tail_single", "SCoda.C01n.duration_seq", "SCoda.C01n.duration_le", "SCoda.C01n.duration_each_statement_false", "SCoda.C01n.duration_pieceEnd_statement_false"]),
@@ -51,8 +51,8 @@ RULE = ("valid multi-track pieces (1-3 tracks, 1-5 bars, <=3 notes per bar and t
         "bins 1..16, pitch ranges (21,108)/(0,127)/narrow ranges at both ends, default steps/values; about a quarter of the cases off the defaults: custom and unsorted step "
         "lists, a step above ppqn, three-digit steps, repeated list entries, custom note-value sets, ppqn 12/48/96, input tracks written on channels other than 0); "
         "non-trivial = at least 2 notes and (2 tracks or a signature change)")
-ASSUMPTIONS = ["models: SCoda.tokeniseCore/detokenise/vocabSeq + extract glue (merge, normalise, interleaved), tied by correspondence",
-               "token text is compared with Python's, not reasoned about"]
+ASSUMPTIONS = ["models: SCoda.tokeniseCore/detokenise/vocabSeq + extract glue (merge, normalise, interleaved), tied by translation (TokTie for the tokeniser class on rendered tokens and default call flags, AbsTie2 / RelTie2 / ViewTie for the glue) and, on the same inputs, by the sampled correspondence",
+               "token text is proved (C02b.parse_render, Defs.render_injective_all) for rendered tokens; arbitrary strings only on the class Defs.detokenise_strings_partial names"]
 
 
 def has_tail(tracks, ppqn=24):
